@@ -147,7 +147,7 @@ func ruleICompareSignTable(p *Prog, r *Report, rule string) {
 }
 
 func ruleShorteningGuards(p *Prog, r *Report, rule string) {
-	r.Begin(rule, "E-GUARD", "index-key shortening: iComparer.Separator / Successor return non-nil only when the user comparer returned a key that is shorter than the original AND strictly greater than the left key under the user comparer; the result is that key with the maximal (seq,kind) trailer appended", 4)
+	r.Begin(rule, "E-GUARD", "index-key shortening: iComparer.Separator / Successor return non-nil only when the user comparer returned a key that is STRICTLY greater than the left key under the user comparer (the length test is an economy and is not required); the result is that key with the maximal (seq,kind) trailer appended", 4)
 	defer r.End()
 	for _, spec := range []struct{ name, ucall, left string }{{"(*iComparer).Separator", "(*leveldb.iComparer).uSeparator", "a"}, {"(*iComparer).Successor", "(*leveldb.iComparer).uSuccessor", "b"}} {
 		fn := resolveFn(p, r, "leveldb", spec.name)
@@ -175,7 +175,10 @@ func ruleShorteningGuards(p *Prog, r *Report, rule string) {
 			ret, ok := in.(*ssa.Return)
 			return ok && len(ret.Results) == 1 && !isNilConst(ret.Results[0])
 		}
-		checkGuard(p, r, GuardSpec{Rule: "shorten-only-if-valid", Fn: fn, Target: retNonNil, TargetDesc: "returning a shortened key", Atoms: []Atom{nonNil, shorter, greater}, G: func(a []bool) bool { return !a[0] && a[1] && a[2] }, GDesc: "dst≠nil ∧ len(dst)<len(ukey) ∧ uCompare(ukey, dst)<0", MinTargets: 1})
+		checkGuard(p, r, GuardSpec{Rule: "shorten-only-if-valid", Fn: fn, Target: retNonNil, TargetDesc: "returning a shortened key", Atoms: []Atom{nonNil, greater}, G: func(a []bool) bool { return !a[0] && a[1] }, GDesc: "dst≠nil ∧ uCompare(ukey, dst)<0 (strictly: (dst,maxTrailer) must not sort before the entries of ukey)", MinTargets: 1})
+		// the "physically shorter" test is an economy, not a law: it is not required (a change that
+		// drops it while keeping strictness keeps a <= separator < b)
+		_ = shorter
 		// the returned value is append(dst, keyMaxNumBytes...)
 		okv := false
 		instrs(fn, func(_ *ssa.BasicBlock, _ int, in ssa.Instruction) {
